@@ -229,7 +229,9 @@ pub fn lines_abm(max: usize) -> Vec<String> {
     v
 }
 
-pub const TAG_SIGMA: [&str; 13] = [
+pub const TAG_SIGMA: [&str; 15] = [
+    "-TXTPP#include empty.txt",
+    "TXTPP#after nonl.txt",
     "-TXTPP#tag T",
     "-TXTPP#tag TU",
     "-TXTPP#tag U",
@@ -251,7 +253,7 @@ pub fn run_c14(tier: &str) -> i32 {
     let (depth, line_len, file_len) = if thorough { (9, 5, 5) } else { (7, 4, 4) };
     rep.set("names", json!(NAMES));
     rep.set("contents", json!(CONTENTS));
-    rep.set("bounds", json!(format!("BFS over the reference store to depth {depth} (operations create x7 names, store x6 contents, inject x all lines of <= {line_len} chars over {{a,b,-}} x LF/CRLF); whole files of <= {file_len} lines over a 13-line tag alphabet")));
+    rep.set("bounds", json!(format!("BFS over the reference store to depth {depth} (operations create x7 names, store x6 contents, inject x all lines of <= {line_len} chars over {{a,b,-}} x LF/CRLF); whole files of <= {file_len} lines over a 15-line tag alphabet")));
     rep.assume("hash iteration order is observed through Display, not controlled: each order-sensitive transition is repeated until all m! orders were seen (cap 200 tries)");
     // model BFS in the parent (pure, fast)
     let mut ops: Vec<Op> = vec![];
@@ -318,6 +320,7 @@ pub fn run_c14(tier: &str) -> i32 {
     // whole files
     let mut help = Tree::new();
     tfile(&mut help, "nonl.txt", "p\nq");
+    tfile(&mut help, "empty.txt", "");
     sharded_dyn(&rep, par_threads(), |_k, _n, next, rep| {
         let b = Bench::new(&help);
         let stop = || rep.over_cap();
@@ -334,8 +337,17 @@ pub fn run_c14(tier: &str) -> i32 {
                 rep.tr(1);
                 rep.add("whole_files", 1);
                 compare_c01(rep, "whole file", &src, true, &m, &r);
+                if seq.len() <= 3 {
+                    // the tag rules are the same in the only-if-needed mode and in a final pass
+                    let r2 = b.run(&src, Mode::InMemoryBuild, true, true);
+                    compare_c01(rep, "whole file (in-memory build)", &src, true, &m, &r2);
+                    let r3 = b.run(&src, Mode::Build, false, true);
+                    compare_c01(rep, "whole file (final pass)", &src, true, &m, &r3);
+                    rep.tv(2);
+                    rep.tr(2);
+                }
                 // "The result is identical on every run": repeat files that hold several tags at once
-                let ntags = seq.iter().filter(|&&i| i <= 2).count();
+                let ntags = seq.iter().filter(|&&i| (2..=4).contains(&i)).count();
                 if ntags >= 2 && r.v == V::Ok {
                     for _ in 0..4 {
                         let r2 = b.run(&src, Mode::Build, true, true);
